@@ -700,8 +700,10 @@ func c09degrade(c *Ctx, fn *ssa.Function) {
 		if reach.EvalAt(ret.Results[1], ret) == an.NonNil {
 			continue // error return for missing arguments
 		}
-		if !viaReset(ret.Results[0], 0) && !an.IsNilConst(ret.Results[0]) {
-			okRet = false
+		for _, v := range reach.Values(ret.Results[0]) {
+			if !viaReset(v, 0) && !an.IsNilConst(v) {
+				okRet = false
+			}
 		}
 	}
 	r.Check(okGate && okRet, "PATH", key, c.InstrPos(deg[0]), "with stale metrics only the degraded result is returned", sprintf("with isDegradeNeeded()==true: calculate reachable=%v, non-degraded return=%v", !okGate, !okRet))
